@@ -333,7 +333,7 @@ func whitespaceVerdict(h *h20, ts []token, seps []string) (kind, detail string) 
 	if k, d := monitorDecode(h, ts, canon, b); k != "" {
 		return k, d // wrong already with single spaces: not a whitespace matter
 	}
-	if o.ok != b.ok || o.e != b.e || o.class != b.class || o.pan != b.pan {
+	if o.ok != b.ok || (o.ok && o.e != b.e) || o.pan != b.pan { // accept/reject and the entropy; not the error text
 		return "bip39-whitespace-changes-result", fmt.Sprintf("decodeBIP39Phrase(%q) = (ok=%v, %x, %q) but decodeBIP39Phrase(%q) = (ok=%v, %x, %q)", phrase, o.ok, o.e, o.errTxt, canon, b.ok, b.e, b.errTxt)
 	}
 	var s1, s2 [32]byte
